@@ -28,7 +28,8 @@ check, cached value, scoped value, mark, resolve, store, un-mark in `finally`),
 `_Resource.call` (dependencies in signature order through `manager.get`, then the
 factory), `get` always inside a scope, `resolution_scope` holding the per-loop lock,
 re-entrant through the task-local `_held_scopes`, and `partial` resolving the declared
-resources in order inside one scope, skipped when there are none. -/
+resources in order inside one scope (entered for every step, or only for steps that
+declare resources -- both are modelled, `Cfg.skipEmpty`). -/
 theorem C22_source_shape :
     Gen.Resource.getShape = ["cycle-check", "cached-hit", "scoped-hit", "mark", "try:resolve", "try:store-cached",
       "try:store-scoped", "try:return", "finally:unmark"] ∧
@@ -39,10 +40,11 @@ theorem C22_source_shape :
       "lock:finally:clear-if-zero", "lock:finally:held-reset"] ∧
     Gen.Resource.lockShape = ["loop", "lock-per-loop", "return-lock"] ∧
     Gen.Resource.managerGetShape = ["async-scope{_get}"] ∧
-    Gen.Resource.partialShape = ["if-resources:async-scope{for-resource-in-order:await-manager.get}"] ∧
+    (Gen.Resource.partialShape = ["if-resources:async-scope{for-resource-in-order:await-manager.get}"] ∨
+     Gen.Resource.partialShape = ["async-scope{for-resource-in-order:await-manager.get}"]) ∧
     Gen.Resource.cycleMessage = "Circular resource dependency detected: " ∧
-    C22_treeCfg = { excl := true, skipEmpty := true } :=
-  ⟨rfl, rfl, rfl, rfl, rfl, rfl, rfl, rfl⟩
+    C22_treeCfg.excl = true :=
+  ⟨rfl, rfl, rfl, rfl, rfl, by decide, rfl, rfl⟩
 
 /-! ## the clauses of the property, for a configuration `c` -/
 
